@@ -86,6 +86,7 @@ type c33DepKind struct {
 	age    int // seconds relative to the minimum age
 	swept  bool
 	conf   uint
+	noconf bool // the Bitcoin chain cannot tell the confirmations of the funding transaction (lookup fails)
 	other  bool
 	status int // 1 eligible, 0 not eligible, 2 exactly on the age boundary
 }
@@ -98,6 +99,8 @@ var c33DepKinds = []c33DepKind{
 	{name: "swept", age: +1, swept: true, conf: 6},
 	{name: "conf5", age: +1, conf: 5},
 	{name: "other", age: +1, conf: 6, other: true},
+	// the funding transaction is unknown to the Bitcoin chain: not "sufficiently confirmed"
+	{name: "unknown", age: +1, noconf: true},
 }
 
 var c33DepBlocks = []uint64{20, 10, 30}
@@ -147,7 +150,9 @@ func c33RunDeposits(r *vrep.R, c c33DepCase) {
 			RevealedAt: now.Add(-time.Duration(c33DepositMinAge+k.age) * time.Second),
 			SweptAt:    swept,
 		})
-		btc.SetTransactionConfirmations(h, k.conf)
+		if !k.noconf {
+			btc.SetTransactionConfirmations(h, k.conf)
+		}
 	}
 	task := NewDepositSweepTask(ch, btc)
 	var got []*DepositReference
